@@ -15,7 +15,7 @@ import PbVerif.Model.JsonText
   tojson <opts> MSG                            opts = 4 bits: useProtoNames useEnumNumbers emitUnpopulated emitDefaultValues, then <mi>
   fromjson <mi> <limit> <discard> JV
   totext <mi> MSG
-  fromtext <mi> <limit> <discard> <skipLimited> TFIELDS
+  fromtext <mi> <limit> <discard> TFIELDS
   rtjson <opts> <mi> MSG                       fromJSON (toJSON m) == norm m ? (model-level round trip, executed)
   rttext <mi> MSG
   norm <mi> MSG
@@ -453,11 +453,11 @@ def step (st : St) : List String → St × String
            | .ok fs => sTFields fs
            | .error e => sEErr e)
     | _, _ => (st, "bad-op")
-  | "fromtext" :: mi :: limit :: discard :: skipLimited :: ts => match mi.toNat?, limit.toInt? with
+  | "fromtext" :: mi :: limit :: discard :: ts => match mi.toNat?, limit.toInt? with
     | some mi, some limit =>
       (match pTFields ts st.T [] with
        | some (fs, [], T) =>
-         (st, match fromText (tcodec T) { discard := bit discard, skipLimited := bit skipLimited } st.X mi limit fs with
+         (st, match fromText (tcodec T) { discard := bit discard } st.X mi limit fs with
               | .ok m => "ok " ++ sMsg st.X mi m
               | .error e => sErr e)
        | _ => (st, "bad-op"))
